@@ -1040,15 +1040,44 @@ func c09R17(c *Ctx) {
 	if fn == nil || fatal == nil {
 		return
 	}
-	edges := kit.LenEdges(fn, func(v ssa.Value) bool { return fieldNamed(v, "Position") }, 0, 0)
-	found := false
-	for _, e := range edges {
-		for _, ret := range kit.Returns(fn) {
-			if !(ret.Block() == e.To || e.To.Dominates(ret.Block())) {
-				continue
+	refuses := func(f *ssa.Function) bool {
+		for _, e := range kit.LenEdges(f, func(v ssa.Value) bool { return fieldNamed(v, "Position") }, 0, 0) {
+			for _, ret := range kit.Returns(f) {
+				if !(ret.Block() == e.To || e.To.Dominates(ret.Block())) {
+					continue
+				}
+				if cl, ok := kit.RetVal(ret, len(ret.Results)-1).(*ssa.Call); ok && kit.CalleeOf(cl.Common()) == fatal {
+					return true
+				}
 			}
-			if cl, ok := kit.RetVal(ret, 0).(*ssa.Call); ok && kit.CalleeOf(cl.Common()) == fatal {
-				found = true
+		}
+		return false
+	}
+	found := refuses(fn)
+	if !found {
+		// the check may live in a helper whose error Do returns as is
+		for _, b := range fn.Blocks {
+			for _, in := range b.Instrs {
+				call, ok := in.(*ssa.Call)
+				if !ok {
+					continue
+				}
+				h := call.Call.StaticCallee()
+				if h == nil || h.Pkg != fn.Pkg || kit.ErrIndexOfCall(call) < 0 || !refuses(h) {
+					continue
+				}
+				// propagated: every exit behind the helper's failure edge returns a non-nil error
+				for _, e := range kit.FailEdges(call) {
+					okp := true
+					for _, ret := range kit.Returns(fn) {
+						if (ret.Block() == e.To || e.To.Dominates(ret.Block())) && kit.RetNil(ret, 0) {
+							okp = false
+						}
+					}
+					if okp {
+						found = true
+					}
+				}
 			}
 		}
 	}
